@@ -27,14 +27,14 @@ Publish(d, da, o) ==
 
 TInit ==
   /\ InitWith([partial |-> FALSE, bounce |-> FALSE, nullSender |-> FALSE, mt |-> 1, list |-> <<>>,
-               rw |-> {}, utf8 |-> FALSE])
+               rw |-> {}, utf8 |-> FALSE, enh |-> TRUE])
   /\ l = 1 /\ drift = FALSE /\ driftAt = 0 /\ tno = 0
   /\ TLCSet(1, {})
 
 TReset ==
   /\ IsEv("Cfg")
   /\ LET c == [partial |-> Ev.partial, bounce |-> Ev.bounce, nullSender |-> Ev.nullSender,
-               mt |-> Ev.mt, list |-> Ev.list, rw |-> {}, utf8 |-> FALSE] IN
+               mt |-> Ev.mt, list |-> Ev.list, rw |-> {}, utf8 |-> FALSE, enh |-> TRUE] IN
        /\ cfg' = c
        /\ to' = Dedup(c.list)
   /\ phase' = "accept"
